@@ -419,11 +419,10 @@ POSTCONDITION Report
 CHECK_DEADLOCK FALSE
 """
 
-def stream_conformance(outs, max_drift=6, timeout=900):
+def stream_conformance(outs, max_drift=6, timeout=900, chunk=2500):
     """Validates the recorded Produce/Consume steps (the .stream file of every shard) against Stream.tla with TLC.
     Returns dict(streams, events, accepted, drift=[{stream, line, event}], invariant=...).  A stream the specification does
-    not explain is reported and dropped, and the rest is validated again."""
-    d = C.scratch("strtrace.")
+    not explain is reported and dropped, and the rest is validated again.  Many streams are validated in chunks, in parallel."""
     lines = []
     for o in outs:
         sp = o + ".stream"
@@ -433,8 +432,31 @@ def stream_conformance(outs, max_drift=6, timeout=900):
                     lines.append((os.path.basename(o), json.loads(line)))
     res = {"streams": len({(o, e["tr"]) for o, e in lines}), "events": len(lines), "accepted": 0, "drift": [], "invariant": None, "wall": 0.0}
     if not lines:
-        C.drop_scratch(d)
         return res
+    # chunks of whole streams
+    chunks, cur, seen = [], [], set()
+    for o, e in lines:
+        key = (o, e["tr"])
+        if key not in seen and len(seen) >= chunk and e["ev"] == "Begin":
+            chunks.append(cur)
+            cur, seen = [], set()
+        seen.add(key)
+        cur.append((o, e))
+    if cur:
+        chunks.append(cur)
+    def one(part):
+        return _stream_conformance_chunk(part, max_drift, timeout)
+    with ThreadPoolExecutor(max_workers=6) as pool:
+        for r in pool.map(one, chunks):
+            res["accepted"] += r["accepted"]
+            res["drift"].extend(r["drift"])
+            res["wall"] += r["wall"]
+            res["invariant"] = res["invariant"] or r["invariant"]
+    return res
+
+def _stream_conformance_chunk(lines, max_drift, timeout):
+    d = C.scratch("strtrace.")
+    res = {"streams": len({(o, e["tr"]) for o, e in lines}), "accepted": 0, "drift": [], "invariant": None, "wall": 0.0}
     dropped = set()
     for attempt in range(max_drift + 1):
         cur = [(o, e) for o, e in lines if (o, e["tr"]) not in dropped]
@@ -451,6 +473,9 @@ def stream_conformance(outs, max_drift=6, timeout=900):
         if not m and not r["violated"]:
             raise C.Inconclusive("StreamTrace did not finish:\n" + r["out"][-3000:])
         hw = int(m.group(1)) if m else 0
+        if r["violated"]:
+            ls = re.findall(r"/\\ l = (\d+)", r["out"])
+            hw = max(1, int(ls[-1]) - 1) if ls else 1
         if m and hw > len(cur) and not r["violated"]:
             res["accepted"] = len({(o, e["tr"]) for o, e in cur})
             break
@@ -464,3 +489,54 @@ def stream_conformance(outs, max_drift=6, timeout=900):
         res["accepted"] = res["streams"] - len(dropped)
     C.drop_scratch(d)
     return res
+
+# ------------------------------------------------------------------ StreamSim.tla: TLC-generated behaviours -> streams for the real code
+
+_SIM_SIG = {"t": "traces", "l": "logs", "m": "metrics"}
+_SIM_LABEL = {"t": "SPANS", "l": "LOGS", "m": "UNIVARIATE_METRICS", "R": "RESOURCE_ATTRS", "X": "UNKNOWN"}
+_SIM_Q = {"traces": "SPAN_EVENTS", "logs": "LOG_ATTRS", "metrics": "NUMBER_DATA_POINTS"}
+
+def stream_behaviours(num, seed_, rng, timeout=600):
+    """tlc -simulate on StreamSim.tla; every finished behaviour (batches of three signals with growing schema levels, altered
+    in flight by up to four faults) becomes a stream for harness/otap.  The concretisation need not be exact: every run is
+    recorded, validated step by step by StreamTrace.tla and judged by OtapObs.tla as it happened."""
+    lines = ["SPECIFICATION SimSpec", "CONSTANTS", '  Signals = {"t", "l", "m"}', '  Related = {"R", "Q"}', "  MainOf <- MCMainOf",
+             "  Family <- MCFamily", "  KnownOf <- MCKnownOf", "  Singletons <- MCSingletons", '  Foreign = "X"', "  MaxFaults = 4",
+             "  Levels = {1, 2, 3}", "  MaxBatches = 5"] + ["  %s = FALSE" % m for m in STREAM_MUTANTS] + \
+            ["INVARIANTS Emit NoPanic NoSilentLoss HealthyOK", "CHECK_DEADLOCK FALSE"]
+    r = C.run_tlc(SPEC, "StreamSim", "\n".join(lines) + "\n", workers=1, timeout=timeout,
+                  extra_args=["-simulate", "num=%d" % num, "-depth", "70", "-seed", str(seed_)])
+    C.drop_scratch(r["dir"])
+    if r["error"] or r["violated"]:
+        raise C.Inconclusive("StreamSim failed: %s\n%s" % (r["error"] or r["violated"], r["out"][-2000:]))
+    seen, plan = set(), []
+    for m in re.finditer(r'<<"BEHAVIOUR", "(.*)">>', r["out"]):
+        raw = m.group(1).encode().decode("unicode_escape")
+        if raw in seen:
+            continue
+        seen.add(raw)
+        beh = json.loads(raw)
+        batches, nspec, sig = [], 0, "traces"
+        for op in beh["h"]:
+            if op["op"] == "produce":
+                sig = _SIM_SIG[op["s"]]
+                nspec = 1 + op["rel"]
+                batches.append({"gen": "uniform", "n": op["r"], "signal": sig, "seed": rng.randint(1, 1 << 40), "rich": 2, "guarded": True,
+                                "maxRes": 1 + op["m"] % 2, "maxScope": 2, "maxItems": 5, "faults": []})
+                continue
+            if not batches:
+                continue
+            pos = lambda i: (i - 1) if i <= nspec else -1
+            k = op["op"]
+            if k == "relabel":
+                lab = _SIM_LABEL.get(op["l"]) or _SIM_Q[sig]
+                f = ["relabel", pos(op["i"]), lab]
+            elif k == "swap":
+                f = ["swap", pos(op["i"]), pos(op["j"])]
+            else:
+                f = [k, pos(op["i"])]
+            batches[-1]["faults"].append(f)
+        if batches:
+            plan.append({"id": "tlc/%d/%d" % (seed_, len(plan)), "signal": batches[0]["signal"], "opts": {}, "batches": batches, "props": [],
+                         "mode": 0, "nowire": True})
+    return plan
